@@ -175,7 +175,7 @@ theorem lastMatch_spec (p : Nat → Prop) [DecidablePred p] (n d : Nat) :
 
 /-- the owner of a key inside `[bmin, bmax)` lies between `cpuMin bmin` and `cpuMax bmax`
     for non-decreasing bound keys starting at 0 -/
-theorem C04_interval_pick (bk : List Nat) (hm : ∀ i j, i ≤ j → bk.getD i 0 ≤ bk.getD j 0) (ncpu o κ bmin bmax : Nat)
+theorem C04_interval_pick (bk : List Nat) (ncpu : Nat) (hm : ∀ i j, i ≤ j → j ≤ ncpu → bk.getD i 0 ≤ bk.getD j 0) (o κ bmin bmax : Nat)
     (ho : o < ncpu) (h0 : bk.getD 0 0 = 0) (htop : bmax ≤ bk.getD ncpu 0) (hpos : 0 < bmax)
     (hlo : bk.getD o 0 ≤ κ) (hhi : κ < bk.getD (o + 1) 0) (hb1 : bmin ≤ κ) (hb2 : κ < bmax) :
     cpuMin bk ncpu bmin ≤ o ∧ o ≤ cpuMax bk ncpu bmax := by
@@ -183,11 +183,11 @@ theorem C04_interval_pick (bk : List Nat) (hm : ∀ i j, i ≤ j → bk.getD i 0
   · have := lastMatch_spec (fun i => bk.getD i 0 ≤ bmin ∧ bmin < bk.getD (i + 1) 0) ncpu 0
     simp only at this
     unfold cpuMin
-    rcases this with ⟨hr, _⟩ | ⟨_, ⟨h1, _⟩, _⟩
+    rcases this with ⟨hr, _⟩ | ⟨hrn, ⟨h1, _⟩, _⟩
     · rw [hr]; exact Nat.zero_le _
     · by_contra hcon
       push Not at hcon
-      have := hm (o + 1) _ (Nat.succ_le_of_lt hcon)
+      have := hm (o + 1) _ (Nat.succ_le_of_lt hcon) (by omega)
       omega
   · have := lastMatch_spec (fun i => bk.getD i 0 < bmax ∧ bmax ≤ bk.getD (i + 1) 0) ncpu 0
     simp only at this
@@ -208,7 +208,7 @@ theorem C04_interval_pick (bk : List Nat) (hm : ∀ i j, i ≤ j → bk.getD i 0
       omega
     · by_contra hcon
       push Not at hcon
-      have := hm (_ + 1) o (Nat.succ_le_of_lt hcon)
+      have := hm (_ + 1) o (Nat.succ_le_of_lt hcon) (by omega)
       omega
 
 /-- the repaired cube level never exceeds levelmin: a search cube is at least as large as the
@@ -316,7 +316,7 @@ theorem mem_collect (ranges : List (Nat × Nat)) (r : Nat × Nat) (hr : r ∈ ra
     `8^(levelmax+1)`) is in the list of cpu files that will be opened. -/
 theorem C04_preselect_sound (t : HTable) (hd : ∀ s d, t.digit s d < 8) (bb : BBox) (lmax levelmax ncpu : Nat)
     (bk : List Nat) (minCube : Nat)
-    (hm : ∀ i j, i ≤ j → bk.getD i 0 ≤ bk.getD j 0) (h0 : bk.getD 0 0 = 0)
+    (hm : ∀ i j, i ≤ j → j ≤ ncpu → bk.getD i 0 ≤ bk.getD j 0) (h0 : bk.getD 0 0 = 0)
     (htop : 8 ^ (levelmax + 1) ≤ bk.getD ncpu 0)
     (hb : bitLengthOf bb lmax minCube ≤ levelmax + 1)
     (X Y Z o : Nat) (ho : o < ncpu)
@@ -334,7 +334,7 @@ theorem C04_preselect_sound (t : HTable) (hd : ∀ s d, t.digit s d < 8) (bb : B
     have hc : (0, 0, 0) ∈ cubes bb 0 := by simp [cubes]
     have hd3 : (2 ^ (levelmax + 1) / 2 ^ 0) ^ 3 = 8 ^ (levelmax + 1) := by
       rw [dkey_eq levelmax 0 (Nat.zero_le _)]; simp
-    have hp := C04_interval_pick bk hm ncpu o (key t X Y Z (levelmax + 1)) 0 (8 ^ (levelmax + 1)) ho h0 htop
+    have hp := C04_interval_pick bk ncpu hm o (key t X Y Z (levelmax + 1)) 0 (8 ^ (levelmax + 1)) ho h0 htop
       (Nat.pow_pos (by decide)) hlo hhi (Nat.zero_le _) hκB
     apply mem_collect _ (cubeRange t 0 levelmax ncpu 3 bk (0, 0, 0)) (List.mem_map_of_mem hc) o
     · simp only [cubeRange, Nat.lt_irrefl, if_false, Nat.zero_mul]
@@ -354,7 +354,7 @@ theorem C04_preselect_sound (t : HTable) (hd : ∀ s d, t.digit s d < 8) (bb : B
           _ ≤ _ := htop
       have hposmax : 0 < (key t (X / 2 ^ (levelmax + 1 - b)) (Y / 2 ^ (levelmax + 1 - b)) (Z / 2 ^ (levelmax + 1 - b)) b + 1)
           * 8 ^ (levelmax + 1 - b) := Nat.mul_pos (Nat.succ_pos _) (Nat.pow_pos (by decide))
-      have hp := C04_interval_pick bk hm ncpu o (key t X Y Z (levelmax + 1)) _ _ ho h0 hmax hposmax hlo hhi hi1 hi2
+      have hp := C04_interval_pick bk ncpu hm o (key t X Y Z (levelmax + 1)) _ _ ho h0 hmax hposmax hlo hhi hi1 hi2
       apply mem_collect _ (cubeRange t b levelmax ncpu 3 bk _) (List.mem_map_of_mem hc) o
       · simp only [cubeRange, hbpos, if_true, dkey_eq levelmax b hb]
         exact hp.1
@@ -501,7 +501,7 @@ theorem axis_in_cubes (lo hi d : Rat) (X B b : Nat) (hbB : b ≤ B) (h0 : 0 ≤ 
     returned list. Composition of `C04_preselect_sound` with the covering of the box by the search cubes. -/
 theorem C04_box_sound (t : HTable) (hd : ∀ s d, t.digit s d < 8) (bb : BBox) (lmax levelmax ncpu : Nat)
     (bk : List Nat) (minCube : Nat)
-    (hm : ∀ i j, i ≤ j → bk.getD i 0 ≤ bk.getD j 0) (h0 : bk.getD 0 0 = 0)
+    (hm : ∀ i j, i ≤ j → j ≤ ncpu → bk.getD i 0 ≤ bk.getD j 0) (h0 : bk.getD 0 0 = 0)
     (htop : 8 ^ (levelmax + 1) ≤ bk.getD ncpu 0)
     (hb : bitLengthOf bb lmax minCube ≤ levelmax + 1)
     (hx0 : 0 ≤ bb.xmin) (hy0 : 0 ≤ bb.ymin) (hz0 : 0 ≤ bb.zmin)
@@ -523,5 +523,23 @@ theorem C04_box_sound (t : HTable) (hd : ∀ s d, t.digit s d < 8) (bb : BBox) (
     · exact axis_in_cubes bb.ymin bb.ymax _ Y _ _ hb hy0
         (le_trans (le_maxR_right _ _) (le_maxR_left _ _)) hdm hy1 hy2
     · exact axis_in_cubes bb.zmin bb.zmax _ Z _ _ hb hz0 (le_maxR_right _ _) hdm hz1 hz2
+
+/-- the premises of `C04_box_sound` are satisfiable: one cpu owning all keys, levelmax 1, the lower-left-front octant
+    as box (search cubes of one bit), the cell (0,0,0) of the 4^3 key grid -/
+example : 0 + 1 ∈ getCpuList Generated.table { xmin := 0, xmax := 1/2, ymin := 0, ymax := 1/2, zmin := 0, zmax := 1/2 } 2 1 1 3 [0, 64] 0 := by
+  have hm : ∀ i j, i ≤ j → j ≤ 1 → ([0, 64] : List Nat).getD i 0 ≤ ([0, 64] : List Nat).getD j 0 := by
+    intro i j h hj
+    have hj' : j = 0 ∨ j = 1 := by omega
+    rcases hj' with rfl | rfl
+    · have : i = 0 := by omega
+      subst this; simp
+    · have hi : i = 0 ∨ i = 1 := by omega
+      rcases hi with rfl | rfl <;> simp
+  have hk : key Generated.table 0 0 0 (1 + 1) < 64 := by
+    have := key_lt Generated.table generated_digits_lt 0 0 0 2
+    simpa using this
+  apply C04_box_sound Generated.table generated_digits_lt _ 2 1 1 [0, 64] 0 hm rfl (by simp) (by decide +kernel)
+    (by norm_num) (by norm_num) (by norm_num) 0 0 0 0 (by omega) (by simp) (by simpa using hk)
+  all_goals norm_num
 
 end Osyris.C04
